@@ -864,6 +864,7 @@ func (w *worker[T]) visit(depth int) bool {
 			d.copyInto(fo, w.tmpl, &w.ffStore) // New() does not depend on the flags
 			fn, fe, _ := d.safeStep(fo, buf, base, &fc)
 			var fobs string
+			hasFok := false
 			w.ffKey = d.key(fo, buf, w.ffKey[:0])
 			fkey := w.ffKey
 			// also from the states suspended on THIS prefix: a last call that brings no new byte, only the flag
@@ -901,6 +902,15 @@ func (w *worker[T]) visit(depth int) bool {
 					}
 					w.kbuf = d.key(w.scratch, buf, w.kbuf[:0])
 					if bytes.Equal(w.kbuf, fkey) || suspended(e2) || e2 == errPanic {
+						continue
+					}
+					// (cheap binary key of the caller-visible values first: states that differ in internal fields only)
+					if !hasFok {
+						w.okbuf2 = d.obsKey(fo, buf, w.okbuf2[:0])
+						hasFok = true
+					}
+					w.okbuf = d.obsKey(w.scratch, buf, w.okbuf[:0])
+					if bytes.Equal(w.okbuf, w.okbuf2) {
 						continue
 					}
 					if fobs == "" {
